@@ -70,6 +70,11 @@ class Cmp:
                 elif key in self.m.extensions and isinstance(ext, dict) and isinstance(b[key], dict):
                     self.table(self.m.extensions[key], ext, b[key], path + (key,))
                 elif not generic_equal(ext, b[key]):
+                    # an extension type the model does not know (registered by the harness): the output may add properties at
+                    # their default values (false / 0), as for every other object, but keeps what was given
+                    if isinstance(ext, dict) and isinstance(b[key], dict) and all(kk in b[key] and generic_equal(vv, b[key][kk]) for kk, vv in ext.items()) \
+                            and all(b[key][kk] in (False, 0) and not isinstance(b[key][kk], float) for kk in b[key] if kk not in ext):
+                        continue
                     self.add("value-changed:extension", path + (key,), "%r became %r" % (ext, b[key]))
             for key in b:
                 if key not in a:
